@@ -137,7 +137,15 @@ ForgedClean == {[act |-> "RecvClean", c |-> c, cp |-> [src |-> s, dst |-> d, rel
                  proof |-> Pf(s, "clean", s, d, 0, "best")] :
                    c \in Chains, s \in Senders, d \in Dests, n \in 1..MaxSeq}
 
-Adversarial == (UNION {AltMsg(m) : m \in Genuine}) \cup ForgedAck \cup ForgedClean
+\* plain (proof-less) clean requests that name another chain as the source, submitted on a chain that is not the source:
+\* "elsewhere it is accepted only with proof of the source's clean point".  The code ignores the source field of
+\* MsgCleanPacket (CleanRes uses the executing chain), so these are requests for the executing chain's own channel.
+ForeignClean == {e \in {[act |-> "Clean", c |-> c, cp |-> [src |-> s, dst |-> d, relay |-> rl, seq |-> n], tag |-> "foreignclean"] :
+                          c \in Chains, s \in Chains, d \in Chains, rl \in Relays, n \in 1..MaxSeq} : e.cp.src # e.c}
+\* ... those that would pass the window test if the named source's channel were consulted
+TemptingForeignClean == {e \in ForeignClean : CleanValid(cs[e.c], e.cp.src, e.cp.dst, e.cp.seq)}
+
+Adversarial == (UNION {AltMsg(m) : m \in Genuine}) \cup ForgedAck \cup ForgedClean \cup ForeignClean
 
 -------------------------------------------------------------------------------
 Log(e) == evlog' = IF LOG THEN Append(evlog, e) ELSE evlog
@@ -176,7 +184,8 @@ AdvPick ==   \* one altered / forged message, chosen so that no family swamps th
   IF k <= 2 /\ Genuine # {} /\ FieldEdits(g) # {} THEN RandomElement(FieldEdits(g))
   ELSE IF k <= 7 /\ Genuine # {} THEN RandomElement(AltMsg(g))
   ELSE IF k <= 9 /\ ForgedAck # {} THEN RandomElement(ForgedAck)
-  ELSE RandomElement(ForgedClean)
+  ELSE IF RandomElement(1..2) = 1 THEN RandomElement(ForgedClean)
+  ELSE PickOr(TemptingForeignClean, RandomElement(ForeignClean))
 
 SimEvent ==
   LET roll    == RandomElement(1..20)
